@@ -1,6 +1,7 @@
 (* C07 property theorems. This file contains only statements closed by
    [exact lemma] and Print Assumptions. *)
-From V Require Import Common.Base Common.Utf8 C07.LineCol C07.Builder C07.BuilderProofs C07.LineColAux C07.LineColProofs C07.Shift C07.ShiftAux C07.ShiftProofs C07.Vlq C07.SpecMap C07.Mappings C07.VlqProofs C07.MappingsProofs C07.FindProofs C07.JoinProofs C07.SpecBuilder C07.BuilderExact C07.JoinAll C07.JoinAllProofs C07.Pipeline C07.BuilderIn C07.BuilderInProofs C07.AdvConcat.
+From V Require Import Common.Base Common.Utf8 C07.LineCol C07.Builder C07.BuilderProofs C07.LineColAux C07.LineColProofs C07.Shift C07.ShiftAux C07.ShiftProofs C07.Vlq C07.SpecMap C07.Mappings C07.VlqProofs C07.MappingsProofs C07.FindProofs C07.JoinProofs C07.SpecBuilder C07.BuilderExact C07.JoinAll C07.JoinAllProofs C07.Pipeline C07.BuilderIn C07.BuilderInProofs C07.AdvConcat C07.ParseMap C07.ParseMapProofs.
+From V Require C16.Checked C16.Vlq16 C16.Vlq16Proofs.
 
 (* encodeVLQ/DecodeVLQ round trip, every integer, arbitrary trailing bytes *)
 Theorem vlq_roundtrip : forall v rest, DecodeVLQ (encodeVLQ v ++ rest) = Some (v, rest).
@@ -243,3 +244,41 @@ Theorem composes_is_remapping : forall text ms inames evs fin,
   flat_map (remap_abs ms) (abs_of (builder_spec_ops text false evs fin) 0).
 Proof. exact composes_remaps_abs. Qed.
 Print Assumptions composes_is_remapping.
+
+(* js_parser.ParseSourceMap (the decoder of INPUT source maps). The decoding loop
+   is the model of coq/C16/Vlq16.v (imported, tied to the Go code by C16's
+   correspondence, C16.parsed_map_indices_in_range); ParseMap.v adds the one
+   variable that model leaves out -- needSort -- and the final sort, and
+   mloop_ns_erase shows that forgetting the flag gives back C16's loop.
+   For every list of sections whose offsets are int32 and whose line counter
+   cannot overflow (sec_bounds) and fewer than 2^31 sources and names: a
+   returned map has its mappings sorted by generated position (whether or not
+   the needSort path ran: if no negative generated-column delta was read and no
+   section starts before the end of the previous one, the decoded order is
+   already sorted) and every source / name index lies inside Sources / Names. *)
+Theorem parsed_map_sorted_in_range : forall secs n1 n2 ms flag,
+  Vlq16Proofs.sections_ok secs -> Vlq16Proofs.total_sources secs < 2 ^ 31 -> Vlq16Proofs.total_names secs < 2 ^ 31 ->
+  Forall sec_bounds secs ->
+  ParseMappingsOrdered secs = Checked.Ok (QMap n1 n2 ms flag) ->
+  sorted_maps (map conv ms) /\ Forall (Vlq16Proofs.good_mapping n1 n2) ms.
+Proof. exact parse_sorted_in_range. Qed.
+Print Assumptions parsed_map_sorted_in_range.
+
+(* ... hence every map ParseSourceMap returns meets the hypotheses of
+   builder_composes (sorted_maps, names_in_range for a Names array of the
+   returned length): composition through a parsed input map never panics and
+   is the spec_find remapping. *)
+Theorem parsed_map_is_composable : forall secs n1 n2 ms flag (inames : list Z),
+  Vlq16Proofs.sections_ok secs -> Vlq16Proofs.total_sources secs < 2 ^ 31 -> Vlq16Proofs.total_names secs < 2 ^ 31 ->
+  Forall sec_bounds secs ->
+  ParseMappingsOrdered secs = Checked.Ok (QMap n1 n2 ms flag) ->
+  Z.of_nat (length inames) = n2 ->
+  sorted_maps (map conv ms) /\ names_in_range (map conv ms) inames.
+Proof. exact parsed_map_composable. Qed.
+Print Assumptions parsed_map_is_composable.
+
+(* the ordered model is the C16 model with the flag forgotten *)
+Theorem parse_model_refines_c16 : forall raw lo co so no sl nl fuel st current acc ns,
+  erase (mloop_ns raw lo co so no sl nl fuel st current acc ns) = Vlq16.mloop raw lo co so no sl nl fuel st current acc.
+Proof. exact mloop_ns_erase. Qed.
+Print Assumptions parse_model_refines_c16.
